@@ -366,7 +366,7 @@ pub fn c03_cfg(rng: &mut Rng, mutated: bool) -> Cfg {
         cfg.max_wrap = Some(*rng.pick(&[2usize, 5, 10, 20, 40]));
     }
     if rng.chance(1, 6) {
-        cfg.min_wrap = Some(*rng.pick(&[1usize, 2, 3, 4, 8]));
+        cfg.min_wrap = Some(*rng.pick(&[0usize, 1, 2, 3, 4, 8]));
     }
     if rng.chance(1, 6) {
         cfg.pad = true;
@@ -378,6 +378,29 @@ pub fn c03_cfg(rng: &mut Rng, mutated: bool) -> Cfg {
         cfg.strikeout = Some(false);
     }
     cfg
+}
+
+/// Signature of a loss.  Under min_wrap_width(0) a text column of a table (or a whole
+/// table) can be given zero width and its cells are then skipped; that recorded
+/// finding is recognised from the hooked column allocation, so that any other loss
+/// under the same option is still reported under its structural class.
+fn loss_sig(class: &str, cfg: &Cfg, input: &[u8], w: usize) -> String {
+    if cfg.min_wrap == Some(0) {
+        let t = render_string_traced(cfg, input, w);
+        for e in &t.events {
+            if let Event::TableLayout { vertical, avail, col_widths, col_size, .. } = e {
+                let starved = if *vertical {
+                    *avail == 0 && col_size.iter().any(|&s| s > 0)
+                } else {
+                    col_widths.iter().zip(col_size.iter()).any(|(&cw, &cs)| cw == 0 && cs > 0)
+                };
+                if starved {
+                    return "text-lost:table-column-zero-width:min_wrap_width(0)".to_string();
+                }
+            }
+        }
+    }
+    format!("text-{}", class)
 }
 
 pub fn check_preserved(
@@ -409,7 +432,7 @@ pub fn check_preserved(
             };
             let (pos, ea, ga) = first_diff(&v_t, &o_t);
             out.violate(
-                if class.starts_with("lost:") { format!("text-{}", class) } else { format!("text:{}{}", class, if cfg.raw && tables { ":raw-table" } else { "" }) },
+                if class.starts_with("lost:") { loss_sig(&class, cfg, input, w) } else { format!("text:{}{}", class, if cfg.raw && tables { ":raw-table" } else { "" }) },
                 format!(
                     "visible text differs from the output as a sequence ({}): at visible char {} expected ..{}.. got ..{}..",
                     class, pos, ea, ga
@@ -430,7 +453,7 @@ pub fn check_preserved(
                 "lost-and-invented".to_string()
             };
             out.violate(
-                if class.starts_with("lost:") { format!("text-{}", class) } else { format!("text:{}:table-doc", class) },
+                if class.starts_with("lost:") { loss_sig(&class, cfg, input, w) } else { format!("text:{}:table-doc", class) },
                 format!("visible text differs from the output as a multiset ({}): missing {:?} extra {:?}", class, truncate(&missing, 60), truncate(&extra, 60)),
                 witness(input, w, cfg, json!({"missing": truncate(&missing, 60), "extra": truncate(&extra, 60), "output": truncate(output, 1500), "mutated": mutated})),
             );
@@ -480,7 +503,7 @@ pub fn check_preserved(
                 "differs".to_string()
             };
             out.violate(
-                if class.starts_with("lost:") { format!("text-{}", class) } else { format!("trivial:{}", class) },
+                if class.starts_with("lost:") { loss_sig(&class, cfg, input, w) } else { format!("trivial:{}", class) },
                 format!("trivial decorator: output characters other than whitespace/borders differ from the document text: missing {:?} extra {:?}", truncate(&missing, 60), truncate(&extra, 60)),
                 witness(input, w, cfg, json!({"missing": truncate(&missing, 60), "extra": truncate(&extra, 60), "output": truncate(output, 1500)})),
             );
@@ -490,7 +513,9 @@ pub fn check_preserved(
 
 /// Hand-written regression inputs (run as the first case indices): places
 /// where text loss was observed or is plausible.
-pub const PROBES: [&str; 10] = [
+pub const PROBES: [&str; 11] = [
+    // rendered with min_wrap_width(0) + allow_width_overflow at width 2 (see run_probe)
+    "<dl><dd><table><tr><td>Celltext</td></tr></table></dd></dl>",
     "<table><caption>Captiontext</caption><tr><td>Cellone</td></tr></table>",
     "<table><tr><td>Bodycell</td></tr><tfoot><tr><td>Footcell</td></tr></tfoot></table>",
     "<ol>Straytext<li>Itemone</li></ol>",
@@ -507,8 +532,19 @@ fn run_probe(idx: u64, out: &mut CaseOut) {
     let input = PROBES[idx as usize].as_bytes();
     let dom = odom::parse(input);
     out.inc("probes");
-    for cfg in [Cfg::trivial(), Cfg::plain(), Cfg::rich()] {
-        for w in [40usize, 8] {
+    let starved = {
+        let mut c = Cfg::trivial();
+        c.min_wrap = Some(0);
+        c.overflow = true;
+        c
+    };
+    let cfgs: Vec<(Cfg, Vec<usize>)> = if idx == 0 {
+        vec![(starved, vec![2])]
+    } else {
+        vec![(Cfg::trivial(), vec![40, 8]), (Cfg::plain(), vec![40, 8]), (Cfg::rich(), vec![40, 8])]
+    };
+    for (cfg, ws) in cfgs {
+        for w in ws {
             let o = render_string(&cfg, input, w);
             out.evals += 1;
             if let Outcome::Ok(s) = &o {
